@@ -71,6 +71,21 @@ def gen_utf8(maxlen, kinds=('g',)):
                     yield f'P {k} {hx("pkg:t/n?k=" + e)}'
                     yield f'P {k} {hx("pkg:t/n#" + e)}'
 
+# ------------------------------------------------------------------ G-slot: every ASCII character in every syntactic slot, exhaustive
+def gen_slot(kinds=('g',)):
+    for c in range(128):
+        ch = chr(c)
+        slots = ['pkg:t' + ch + '/n', 'pkg:' + ch + 't/n', 'pkg:t/n?k' + ch + '=v', 'pkg:t/n?' + ch + 'k=v', 'pkg:t/n?k=v&' + ch + '=w',
+                 'pkg:t/n?checksum=a:' + ch + '0', 'pkg:t/n?checksum=a:0' + ch, 'pkg:t/n?checksum=a:00' + ch + '0', 'pkg:t/n?checksum=a' + ch + ':00',
+                 'pkg:t/n?checksum=' + ch + 'a:00,b:11', 'pkg:t/n?checksum=a:00' + ch + 'b:11',
+                 'pkg:t/' + ch + '/n', 'pkg:t/a' + ch + 'b/n', 'pkg:t/n' + ch, 'pkg:t/' + ch + 'n', 'pkg:t/n@' + ch, 'pkg:t/n@1' + ch + '2', 'pkg:t/n?k=' + ch, 'pkg:t/n?k=a' + ch + 'b',
+                 'pkg:t/n#' + ch, 'pkg:t/n#a' + ch + 'b', 'pkg:t/n#a/' + ch + '/b', 'pk' + ch + ':t/n', 'pkg' + ch + 't/n', ch + 'pkg:t/n', 'pkg:' + ch + '/t/n']
+        for s in slots:
+            for k in kinds: yield f'P {k} {hx(s)}'
+    for c in ['é', 'É', 'ß', 'K', 'Σ', '日']:
+        for s in ['pkg:t' + c + '/n', 'pkg:t/n?k' + c + '=v', 'pkg:t/n?checksum=a' + c + ':00', 'pkg:t/n?checksum=' + c + 'SHA:00', 'pkg:t/n?checksum=' + c + 'A:00,' + c + 'a:11', 'pkg:t/n?checksum=a:0' + c]:
+            for k in kinds: yield f'P {k} {hx(s)}'
+
 # ------------------------------------------------------------------ random strings
 POOL_ASCII = list("abcXYZ019") + list("-._~!$'()*,;:") + list(" \"<>%@?#`{}/+&=|\\^[]") + ['\t', '\x01', '\x7f']
 POOL_UNI = ['é', 'Æ', 'ß', 'ǅ', 'İ', '日', '𝄞', '́', 'K', 'ſ', 'Σ', 'ΑΣ', 'ς']
@@ -96,6 +111,9 @@ def rkey(rng):
     return first + rest
 def rcase(rng, s):
     return ''.join(c.upper() if rng.random() < 0.4 else c.lower() for c in s)
+def rcase_ascii(rng, s):
+    # vary the case of ASCII letters only (upper-casing a non-ASCII letter may change its identity, e.g. sharp s)
+    return ''.join((c.upper() if rng.random() < 0.4 else c) if c.isascii() else (c.upper() if len(c.upper()) == 1 and c.upper().lower() == c and rng.random() < 0.3 else c) for c in s)
 def rtype(rng):
     return rng.choice('abtxyz') + ''.join(rng.choice('abz09.+-') for _ in range(rng.randint(0, 4)))
 
@@ -130,7 +148,7 @@ def random_tuple(rng, typed=False):
     if rng.random() < 0.25:
         cs = {}
         for _ in range(rng.randint(1, 3)):
-            alg = rng.choice(['sha1', 'sha256', 'md5', 'b2', 'x-y', 'é1', 'ǆ', 'ασ', 'sha512', 'sha512-256', 'urn:sha1'])
+            alg = rng.choice(['sha1', 'sha256', 'md5', 'b2', 'x-y', 'é1', 'ǆ', 'ασ', 'sha512', 'sha512-256', 'urn:sha1', 'ésha', '日b', 'ßx', 'gost-ё', 'shä'])
             cs[alg] = bytes(rng.randrange(256) for _ in range(rng.choice([0, 1, 2, 4])))
         quals['checksum'] = ','.join(f'{a}:{cs[a].hex()}' for a in sorted(cs, key=lambda a: a.encode()))
     sub = []
@@ -192,7 +210,7 @@ def spelling_of(rng, t, fault=None):
             if k == 'checksum' and t['cs'] is not None:
                 ents = list(t['cs'].items())
                 rng.shuffle(ents)
-                v = ','.join(f'{rcase(rng, a) if a.isascii() else a}:{rcase(rng, b.hex())}' for a, b in ents)
+                v = ','.join(f'{rcase_ascii(rng, a)}:{rcase(rng, b.hex())}' for a, b in ents)
             m = '&?' + ('' if has_sub else '#')
             if rng.random() < 0.3:
                 # an empty-valued qualifier, with a fresh key or the key of a later item (never the key of an earlier non-empty one)
@@ -283,6 +301,11 @@ def gen_fault(rng, n, kinds=('g', 't')):
             else:
                 bad = 'checksum=' + rng.choice(['sha1', 'sha1:0', 'sha1:0g', 'sha1:00,md5', 'sha1:00,SHA1:11', 'sha1:00,sha1:00', ':0',
                                                 'sha1:000', 'a:00,', ',a:00', 'a:0%2C', 'sha1:zz', 'Sha1:00,sHA1:00', 'ǅ:00,ǆ:11'])
+                if rng.random() < 0.35:
+                    c = rng.choice([x for x in "+-_.~!*'();@$=ghzGHZ xX/\\|^[]{}`\"<>" if x not in ',&#:'])   # not ':' - it would move the algorithm/digest boundary
+                    d = list(rng.choice(['00', 'a0b1', '0f', 'DEADBEEF']))
+                    d[rng.randrange(len(d))] = c
+                    bad = 'checksum=' + rng.choice(['sha1:', 'a:00,b:', 'SHA256:']) + spell(rng, ''.join(d), '&?#%')
                 if rng.random() < 0.5: bad = rcase(rng, 'checksum') + bad[8:]
             if fk == 'dupkey':
                 items.append(bad)
@@ -405,6 +428,20 @@ def gen_names(rng, tier):
         yield from cases('A' + chr(cp))
         yield from cases(chr(cp) + '_-')
 
+# ------------------------------------------------------------------ G-types: type strings through the builder, every built-in carrier
+ODD_TYPES = ['\u212a8s', 'K8s', '7zip', '3D', '0', '9', 'ſ', 'İ', 'é', 'É', 'café', 'Über', 'ß', 'Σ', 'py٣', '²', 'Ⅻ', '中', 'a\u0301', 'T', 'Tt', 'tT', 'Maven', 'NuGet', 'c++X', 'a.b', '.', '+', '-', 'a-', ' t', 't ', 't\t', 't/n', 't%41', '']
+def gen_types(kinds=('g', 's', 'b', 'o')):
+    tys = list(ODD_TYPES)
+    for c in range(128):
+        tys += [chr(c), 'a' + chr(c), chr(c) + 'a']
+    for ty in tys:
+        for k in kinds:
+            yield f'B {k} {hx(ty)} {hx("n")} -'
+    for ty in ODD_TYPES:
+        for k in kinds:
+            yield f'B {k} {hx("t")} {hx("n")} T:{hx(ty)}'
+            yield f'B {k} {hx(ty)} {hx("")} -'
+
 # ------------------------------------------------------------------ G-build
 VALS = ['', 'x', 'A/b', '/', 'a//b/', '%41', '..', 'a/../b', 'é', 'a@b?c#d', ' ', 'a&b=c+d', '"<>`{}', 'a:b']
 QKEYS = ['a', 'A', 'b', 'a.b', 'a_b', 'ab', '!', '', 'checksum', 'Checksum', 'repository_url', 'é']
@@ -412,7 +449,7 @@ QVALS = ['', 'x', 'a&b=c', 'sha1:00', 'SHA1:ZZ', 'B:00,a:FF', 'sha1:0', 'a:,b:',
 CSOPS = ['-', f'i.{hx("sha1")}.00ff', f'i.{hx("SHA1")}.-', f'i.{hx("md5")}.0a+i.{hx("MD5")}.0b', f'w.{hx("sha1")}.{hx("zz")}',
          f'w.{hx("sha1")}.{hx("ABC")}', f'i.{hx("ǅ")}.01+i.{hx("ǆ")}.02', f'i.{hx("b")}.00+i.{hx("a")}.ff', f'i.{hx("a")}.00+r.{hx("a")}',
          f'w.{hx("a")}.{hx("AB")}+i.{hx("A")}.cd', f'i.{hx("a,b")}.00']
-GTYPES = ['t', 'T.y+p-e', 'NPM', '', 'a b', 'é', 't%2B']
+GTYPES = ['t', 'T.y+p-e', 'NPM', '', 'a b', 'é', 't%2B', '\u212a8s', '7zip', 'Maven']
 def builder_ops(kind):
     tyv = [str(i) for i in range(7)] if kind == 't' else [hx(x) for x in GTYPES]
     ops = []
@@ -493,7 +530,7 @@ def gen_qops(rng, nrand):
         yield 'F ' + (','.join(ps) or '-')
 
 # ------------------------------------------------------------------ G-cs
-CALGS = ['sha1', 'SHA1', 'Sha1', 'md5', 'MD5', 'ǅ', 'ǆ', 'Ǆ', 'a:b', '', 'é', 'É', 'b2', 'K', 'a b', 'ΑΣ', 'ασ', 'ας', 'sha512', 'sha512-256', 'sha512.1', 'urn:sha256']
+CALGS = ['éSHA', 'ésha', 'éA', 'éa', 'SHÄ', 'shä', 'GOST-Ё', 'gost-ё', 'sha1', 'SHA1', 'Sha1', 'md5', 'MD5', 'ǅ', 'ǆ', 'Ǆ', 'a:b', '', 'é', 'É', 'b2', 'K', 'a b', 'ΑΣ', 'ασ', 'ας', 'sha512', 'sha512-256', 'sha512.1', 'urn:sha256']
 def gen_cs(rng, n):
     for c in CSOPS: yield f'C {c}'
     for _ in range(n):
@@ -559,6 +596,14 @@ def gen_pair(rng, n, kinds=('g', 't', 's', 'b', 'o')):
              ('pkg:t/n?k=v#s', 'pkg:t/n?k=v%23s'), ('pkg:t/n@v?k=1', 'pkg:t/n@v%3Fk=1'), ('pkg:T/n', 'pkg:t/n'), ('pkg:t/n', 'pkg:t/N')]
     for a, b in fixed:
         for k in ('g', 's'): yield f'K P {k} {hx(a)} ~ P {k} {hx(b)}'
+    for x in ['/', '//', '///', 'a/', '/a', 'a//b', '.', '..', './a', 'a/..']:
+        for y in ['', 'a', 'a/b', '/']:
+            for f in 'SU':
+                for k, ty in (('g', hx('t')), ('s', hx('t')), ('b', hx('t')), ('o', hx('t')), ('t', '4'), ('t', '3')):
+                    l = f'B {k} {ty} {hx("n")} {f}:{hx(x)}'
+                    r = f'B {k} {ty} {hx("n")} {f}:{hx(y)}' if y else f'B {k} {ty} {hx("n")} -'
+                    yield f'K {l} ~ {r}'
+                    yield f'K {l} ~ P {k if k in "gst" else "g"} {hx("pkg:" + ("t" if k != "t" else ("npm" if ty == "4" else "maven")) + "/n")}' if k in 'gst' else f'K {l} ~ {l}'
     for _ in range(n):
         kind = rng.choice(kinds)
         pk = kind if kind in ('g', 's', 't') else 'g'
@@ -617,7 +662,7 @@ def gen_pair(rng, n, kinds=('g', 't', 's', 'b', 'o')):
 
 # ------------------------------------------------------------------ G-shape
 HOOKS = ['k', 'f', 'n', 's', 'v', 'V', 'u', 'e', 'q', 'm', 'c', 'N', 't', 'nN', 'Nn', 'mc', 'cm', 'se', 'qf', 'fq', 'Vv', 'vV', 'nq', 'eq', 'sVuqc', 'tt', 'ne', 'mn', 'nm']
-FAM_INPUTS = ['pkg:custom/n', 'pkg:CuStOm/N@1?k=v#s', 'pkg:other/a/b/n', 'pkg:custom', 'pkg:cus%74om/n', 'pkg:cu stom/n', 'pkg:/custom/n', 'pkg:custom/',
+FAM_INPUTS = ['pkg:café/n', 'pkg:py٣/n', 'pkg:\u212a8s/n', 'pkg:Custom/n', 'pkg:7custom/n', 'pkg:custom/n?checksum=', 'pkg:custom/n?x=', 'pkg:custom/n?checksum=SHA1:AB', 'pkg:custom/n', 'pkg:CuStOm/N@1?k=v#s', 'pkg:other/a/b/n', 'pkg:custom', 'pkg:cus%74om/n', 'pkg:cu stom/n', 'pkg:/custom/n', 'pkg:custom/',
               'pkg:custom/n?zz=&checksum=A:00', 'pkg:custom/n?checksum=bad', 'pkg:custom/n?=x', 'pkg:custom/%80', 'pkg:custom/n#%2e', 'x:custom/n', 'pkg:',
               'pkg:custom/n@%FF', 'pkg:custom/a%2Fb/n', 'pkg:Custom2/n', 'pkg:custom/n?Hk=old&ZZ=1']
 def gen_shape(rng, n):
@@ -630,6 +675,10 @@ def gen_shape(rng, n):
                     yield f'H {fam} B {hx(ty)} {hx("n")} -'
                     yield f'H {fam} B {hx(ty)} {hx("")} Q:{hx("Hk")}:{hx("o")},S:{hx("x")}'
                     yield f'H {fam} B {hx(ty)} {hx("n")} Q:{hx("!")}:{hx("o")}'
+    for c in list(range(128)) + [0xe9, 0xc9, 0x663, 0x212a, 0x4e2d]:
+        for s in ['pkg:cu' + chr(c) + 'stom/n', 'pkg:' + chr(c) + 'custom/n', 'pkg:custom' + chr(c) + '/n']:
+            yield f'H ALk P {hx(s)}'
+            yield f'H CRq P {hx(s)}'
     for _ in range(n):
         fam = rng.choice('AFC') + rng.choice('LLRX') + ''.join(rng.choice('kfnsvVueqmcNt') for _ in range(rng.randint(1, 4)))
         t = random_tuple(rng); t['ty'] = rng.choice(['custom', 'CUSTOM', 'x'])
@@ -641,6 +690,16 @@ def gen_serde(rng, n):
         for k in 'gt': yield f'J {k} {hx(v)}'
     for s in corpus_strings():
         for k in 'gt': yield f'J {k} {hx(json.dumps(s, ensure_ascii=(rng.random() < 0.5)))}'
+    for s in corpus_strings()[:40] + ['pkg:npm/say"hi"@1.0', 'pkg:npm/a\tb', 'pkg:cargo/name@1.0\\beta', 'pkg:npm/%40angular/cli', 'pkg:npm/@angular%2Fcli@1.0#rc?', 'pkg:npm/a%41']:
+        for v in [' ' + s, s + ' ', s + '\n', '\t' + s, s + '\u00a0', s.upper()]:
+            for k in 'gt': yield f'J {k} {hx(json.dumps(v))}'
+        esc_solidus = json.dumps(s).replace('/', chr(92) + '/')                      # escaped solidus: a transient string for the visitor
+        esc_u = json.dumps(s, ensure_ascii=True).replace('p', chr(92) + 'u0070', 1)  # a unicode escape
+        for k in 'gt':
+            yield f'J {k} {hx(esc_solidus)}'
+            yield f'J {k} {hx(esc_u)}'
+            yield f'J {k} {hx("[" + json.dumps(s) + "]")}'
+            yield f'J {k} {hx(json.dumps({"purl": s}))}'
     for _ in range(n):
         k = rng.choice('gt')
         t = random_tuple(rng, typed=(k == 't'))
